@@ -236,6 +236,17 @@ func (w *c12World) observeCall(op *c12Op, call *c12Call, d digest.Digest) {
 		return
 	}
 	w.observe("ba", op.Epoch, r.Obj.H8, call.Key, c12RouteObs{Method: call.Method, Ref: r, Op: op})
+	// the composite (in configured runs: assembled from the configuration
+	// message, in a tape-drawn listing order) must route like a selector built
+	// directly from the same (key, weight) pairs
+	if e := op.Epoch; e.Sel != nil && !w.c.Failed() {
+		if idx := e.Sel.GetShard(r.Obj.H8); idx >= 0 && idx < len(e.List) {
+			w.c.Count("probe_composite_vs_selector", 1)
+			if e.List[idx].Key != call.Key {
+				w.c.Fail("composite-routes-unlike-selector", "hash %016x… was sent to shard %q (%s by %s) although a rendezvous selector over the same shards %s chooses %q (configured=%v)", r.Obj.H8, call.Key, call.Method, op, c12ListString(e.List), e.List[idx].Key, w.configured)
+			}
+		}
+	}
 }
 
 func c12IsSubset(a, b map[string]uint32) bool {
